@@ -1,13 +1,14 @@
 """C16: every client, producer and consumer setting takes effect, in any builder order."""
 import itertools
 
+import struct
 import kproto
 from val import T, dumps
 from props.common import brokers, fp, host, pm
 
 SLICE = "KafkaClient setters/getters, consumer::Builder::create, producer::Builder::{with_partitioner,create}, to_millis_i32; settings as seen in request headers/bodies and in retry / reconnect / CRC behaviour"
 RULE = ("three families: (1) client: client_new, a seeded random sequence of setters (every option, boundary values, repeats) with get_config after each, then "
-        "metadata load and observation calls (fetch with a falsified-CRC message, produce, group offset fetch, commit; or group calls against a coordinator "
+        "metadata load and observation calls (fetch with a falsified-CRC message - plain, a gzip / snappy batch whose own checksum is off by a bit, a message inside a batch, in turn -, produce, group offset fetch, commit; or group calls against a coordinator "
         "scripted to answer 15 / a commit scripted to answer 14, to count attempts); (2) consumer builder and (3) producer builder: from hosts or from a client "
         "pre-configured by setters, a seeded random subset of the options with 1-2 values each (the same option repeated: last wins), calls shuffled, "
         "with_partitioner at a random position (once or twice); thorough tier additionally all permutations of seeded 3-4 call lists; get_config after the build; "
@@ -166,8 +167,25 @@ def cluster_spec(scenario, coord, committed):
     return spec
 
 
+_LAYOUT = [0]
+
+
 def bad_crc_mutation():
-    ms = kproto.encode_message(8, None, b"good") + kproto.encode_message(9, b"q", EVIL, crc=12345)
+    """a fetch answer holding a message whose CRC does not fit; the layouts take turns: a plain message, a gzip / snappy batch whose OWN
+    checksum is off by one bit (its content is intact), a gzip batch holding the falsified message"""
+    k = _LAYOUT[0] % 5
+    _LAYOUT[0] += 1
+    good, evil = kproto.encode_message(8, None, b"good"), kproto.encode_message(9, b"q", EVIL)
+    if k in (0, 3):
+        ms = good + kproto.encode_message(9, b"q", EVIL, crc=12345)
+        if k == 3:
+            ms = kproto.encode_message(9, None, kproto.gzip_compress(ms), attr=1)
+    else:
+        inner = good + evil
+        v = kproto.gzip_compress(inner) if k in (1, 4) else kproto.snappy_xerial_compress(inner)
+        w = kproto.encode_message(9, None, v, attr=1 if k in (1, 4) else 2)
+        crc = struct.unpack(">I", w[12:16])[0] ^ (1 << (7 if k == 4 else 0))
+        ms = kproto.encode_message(9, None, v, attr=1 if k in (1, 4) else 2, crc=crc)
     return {"api": "fetch", "kind": "body",
             "body": {"topics": [{"topic": T1, "partitions": [{"partition": 0, "error": 0, "highwatermark": 10, "message_set": ms}]}]}}
 
@@ -415,6 +433,7 @@ def small_call_sets(rng, family, n):
 
 
 def gen(rng, tier):
+    _LAYOUT[0] = 0
     quick = tier == "quick"
     cases = []
     for _ in range(140 if quick else 2500):
